@@ -30,22 +30,12 @@ class AsyncComparison(Condition):
         operator.ge: '>=',
         operator.gt: '>',
     }
-    _operator_inverse = {
-        operator.lt: operator.ge,
-        operator.ge: operator.lt,
-        operator.gt: operator.le,
-        operator.le: operator.gt,
-        operator.eq: operator.ne,
-        operator.ne: operator.eq,
-    }
 
     def __bool__(self):
         return self._test()
 
     def __invert__(self):
-        return AsyncComparison(
-            self._left, self._operator_inverse[self._condition], self._right
-        )
+        return NegatedComparison(self)
 
     def __init__(
             self,
@@ -80,6 +70,33 @@ class AsyncComparison(Condition):
     def __repr__(self):
         return f'{self.__class__.__name__}({self._left!r}, '\
                f'operator.{self._condition.__name__}, {self._right!r})'
+
+
+class NegatedComparison(AsyncComparison):
+    """
+    The negation ``~comparison`` of a comparison
+
+    This is deliberately not the comparison by the "opposite" operator: for values
+    that are only partially ordered, such as the levels of several resources,
+    ``not a >= b`` does not imply ``a < b``.
+    """
+    def __init__(self, comparison: AsyncComparison):
+        condition = comparison._condition
+        super().__init__(
+            comparison._left,
+            lambda left, right: not condition(left, right),
+            comparison._right,
+        )
+        self._negated = comparison
+
+    def __invert__(self):
+        return self._negated
+
+    def __str__(self):
+        return f'not ({self._negated})'
+
+    def __repr__(self):
+        return f'~{self._negated!r}'
 
 
 class Tracked(Generic[V]):
